@@ -165,13 +165,15 @@ KidLists == UNION {[1..k -> KidKinds] : k \in 0..2}
 \* what else the author wrote on the root: nothing, a prefixed namespace declaration
 \* only, a version, id and class, attributes in a namespace of their own
 RootAttrs == {"none", "xlink", "version", "id-class", "custom-ns", "xml-space"}
+\* an empty root may be written <svg></svg> or <svg/>
+RootForms(ks) == IF ks = <<>> THEN {"pair", "empty-tag"} ELSE {"pair"}
 RootCases ==
     UNION {
-    {[fam |-> "root", prolog |-> p, kids |-> ks, ns |-> n, rootattrs |-> ra,
+    {[fam |-> "root", prolog |-> p, kids |-> ks, ns |-> n, rootattrs |-> ra, form |-> rf,
       \* a namespaced root is passed through untouched; otherwise the root is
       \* synthesised: svg + xmlns + version, single root
       passthrough |-> n, rootok |-> TRUE] :
-        p \in Prologs, n \in BOOLEAN, ra \in (IF Len(ks) <= 1 THEN RootAttrs ELSE {"none", "xlink"})} : ks \in KidLists}
+        p \in Prologs, n \in BOOLEAN, ra \in (IF Len(ks) <= 1 THEN RootAttrs ELSE {"none", "xlink"}), rf \in RootForms(ks)} : ks \in KidLists}
 
 Cases == CASE Family = "wf" -> WfCases [] Family = "lines" -> LineCases \cup LineCases2 [] Family = "root" -> RootCases [] OTHER -> {}
 Init == c \in Cases
